@@ -284,3 +284,52 @@ MANIFEST_TEXT["C11"] = {
     "note": "Trusted: Lean kernel (axioms propext/Classical.choice/Quot.sound at most), extractor, harness with its world generator (honesty is by construction of the generator). With the recorded 2023 collateral the Intel samples cannot be expected to pass the TCB comparison; they are required to be accepted at the base level only.",
     "technique": "Lean 4 proof over an executable model of the verification pipeline + differential correspondence on generated honest worlds + genuine sample quotes",
 }
+
+# ---- verification group, part C (C05 C06 C12)
+PROPS["C05"] = {
+    "project": strip_cls,
+    "rule": "the real verify.TdxQuote on generated worlds (own PKI, signed quote, signed TCB Info / QE Identity with DISTINCT signing certificates, PCK CRL, Root CA CRL, scripted recording getter); each world = honest world + ONE fault, run under all four GetCollateral x CheckRevocations combinations: revoked-serial sets {empty, exactly the target, target+1, target-1, 2^64, 2^159, the target's low 64 bits, 1000 entries with the target first / last / absent} for each of the four targets (leaf in the PCK CRL; intermediate CA, TCB-Info signer, QE-Identity signer in the Root CA CRL) and for the two WRONG lists (leaf's serial in the Root CRL, intermediate's in the PCK CRL), serials of three magnitudes (int-sized, around 2^64, up to 2^158); CRL signer {right CA, the other CA's key, foreign key with the right issuer name, right key under the other CA's / the TCB signer's name / the same CN with another organisation}; endpoint outcome {fetch error, unparsable bytes, the other issuer's CRL, three distribution points with failing / unparsable / forged / revoking prefixes incl. first-success-wins, no distribution point on the QE-Identity issuer root}; PCK-CRL issuer-chain header {absent, two values, one block, wrong PEM type, empty, bad escape, unparsable DER, swapped}; plus random combinations of several dimensions (600 quick / 8000 thorough). Every world is also predicted by the Lean model (verdict, URL list, Options.Now). Non-trivial = every case (all reach the chain checks); distinct = distinct (fault, options, error text, line hash)",
+    "trusted_base": ["crypto/x509 (CRL parsing, RevocationList.CheckSignatureFrom, certificate parsing and path building), encoding/pem, encoding/json, ECDSA/SHA-256 enter the model as per-world oracle facts computed by the harness with the Go standard library (DESIGN.md 5a); the model covers what verify.go does with them",
+                     "the property oracle re-parses the served CRL bytes and authenticates them with crypto/x509 itself; it shares the standard library, not the model or the code under check"],
+    "assumptions": ["'the Root CA CRL that was obtained' is read as the answer of the last distribution point the verifier asked; an authentic Root CA CRL fetched on the way that lists one of the serials must not be ignored either",
+                    "faults of the PCK-CRL issuer-chain HEADER are outside the statement (the CRL is authenticated against the quote's own chain); they are compared with the model only",
+                    "non-vacuity: a world whose CRLs are authentic and list none of the four serials must be accepted with GetCollateral and CheckRevocations (reported with the prefix 'non-vacuity:')"],
+}
+
+MANIFEST_TEXT["C05"] = {
+    "text": "Lean theorems over the executable model of verify.tdxQuoteV4 (oracle facts for everything the Go standard library decides): acceptance with CheckRevocations implies both CRLs were obtained, the Root CA CRL verifies under the chain's root and the PCK CRL under the chain's intermediate CA, and none of leaf / intermediate / TCB-Info signer / QE-Identity signer serial is listed; any CRL fetch, parse or authentication failure rejects; CheckRevocations without GetCollateral always rejects. The model is tied to verify.go by a differential run of the real verify.TdxQuote over generated worlds (serial-set x target, CRL signer, endpoint outcome, issuer-chain header faults, all four option combinations, random combinations), with an independent oracle that re-parses and authenticates the served CRLs with crypto/x509.",
+    "note": "Trusted: Lean kernel (axioms propext/Classical.choice/Quot.sound at most), extractor, harness, and the Go standard library for X.509 / CRL / ECDSA / JSON (facts, not modelled). 'Obtained Root CA CRL' = the first distribution point that fetches and parses (the code's rule); the oracle additionally refuses an acceptance after any fetched authentic CRL that lists a target.",
+    "technique": "Lean 4 proof over an executable model with oracle facts + differential correspondence on generated attestation worlds",
+}
+
+PROPS["C06"] = {
+    "project": strip_cls,
+    "rule": "the real verify.TdxQuote on generated worlds in which each of the 14 expiring artifacts has its OWN certificate / document and window: quote chain root, intermediate, leaf; trusted pool root (same key and name as the chain root, own serial and window); TCB-Info signer and header root; QE-Identity signer (own key) and header root; PCK-CRL header signer and header root; TCB Info, QE Identity, PCK CRL, Root CA CRL nextUpdate. Per artifact one world (the artifact alone expires early / starts late) verified at: expiry + {-1 s, -1 ns, 0, +1 ns, +1 s} on the artifact's OWN TimeSet entry (the pool root on each of PckCertChain, TcbInfo, QeIdentity) with the other four entries far inside all windows and pairwise distinct; expiry + 1 s on every WRONG entry; notBefore + {-1 s, 0, +1 s} on the own entry and notBefore - 1 s on every wrong entry for every certificate; the expired probe again at T + {1 s, 1 h, 10 years} on the own entry and on all entries (monotonicity pairs) and at the GetCollateral-only, base and CheckRevocations-only levels; a variant with a second certificate of the intermediate CA in the pool (the chain's own intermediate off the validated path); 500 (quick) / 8000 (thorough) random time assignments (entries far inside / on a random artifact boundary +-1 s, +-1 ns / far past / far before) over worlds with random windows at random option levels; Options.Now = nil against the wall clock (honest, each artifact expired a day ago, path roles not yet valid). Every case is also predicted by the Lean model. Non-trivial = every case; distinct = distinct (probe, options, error text, line hash)",
+    "trusted_base": ["crypto/x509 Certificate.Verify is assumed to judge every certificate of the path it builds (leaf, intermediate, trusted root) against VerifyOptions.CurrentTime with notBefore <= t <= notAfter; the model's pathValid states exactly that and every probe re-validates it",
+                     "certificate, CRL and JSON times have one-second granularity; the +-1 ns probes sit between two representable expiry values"],
+    "assumptions": ["the oracle knows only the windows the generator chose, the time set and the option level; for Options.Now = nil it uses the wall clock read before the call (windows are at least a day away from it)",
+                    "which artifacts count at an option level: quote chain + pool root always; TCB Info / QE Identity documents and issuer chains with GetCollateral; the CRLs and the PCK-CRL issuer chain with GetCollateral and CheckRevocations",
+                    "a rejected world in which every artifact that counts is in date at its own entry is reported too ('judged against a wrong entry?'): each artifact must be judged against its own entry only",
+                    "finding F9 (Options.Now persisted) is visible in the Now = nil cases as now=set in both the observed and the predicted line; its oracle belongs to C12"],
+}
+
+MANIFEST_TEXT["C06"] = {
+    "text": "Lean theorems over the executable model of verify.tdxQuoteV4: acceptance at time set T implies, for the nine certificate roles, two documents and two CRLs, T[class a] <= expiry a, and notBefore a <= T[class a] for the roles on validated paths (leaf, intermediate, collateral signers, trusted root), with the property's class assignment (PCK chain -> PckCertChain, TCB Info and its issuer chain -> TcbInfo, QE Identity -> QeIdentity, PCK CRL and its issuer chain -> PckCrl, Root CA CRL -> RootCaCrl); expired stays expired for every pointwise later time set. Tied to verify.go by running the real verify.TdxQuote on worlds where each artifact expires alone, probed at expiry +-1 s / +-1 ns on its own and on every wrong TimeSet entry, notBefore probes, monotonicity pairs, random assignments and Now = nil, with an oracle that knows only the generator's windows.",
+    "note": "Trusted: Lean kernel, extractor, harness, crypto/x509 path validation (facts + the model's pathValid). Header-chain roots and the chain root are checked for expiry only (not for notBefore) by the code; the property asks no more.",
+    "technique": "Lean 4 proof over an executable model with oracle facts + differential correspondence on generated attestation worlds (boundary grid + random)",
+}
+
+PROPS["C12"] = {
+    "project": strip_cls,
+    "rule": "the real verify.TdxQuote with a recording getter: (a) 1 (quick) / 2 (thorough) REAL-TIME histories: world 1 verified with Options.Now = nil through a shared options value, world 2 whose certificates become valid 1-2 s later, sleep, world 2 through the shared value and through fresh options; (b) a mixed population (38 kinds: honest, trailing NUL, quote / QE-report signature by a foreign key, hash binding, TEE type, foreign root, nil pool, leaf expired / not yet valid, intermediate expired, leaf / intermediate / collateral signer revoked, OutOfDate TCB and QE levels, TCB Info / QE Identity signed by a foreign key or tampered, each of the four fetches failing, unparsable bodies, missing issuer-chain header, forged PCK CRL, three distribution points, wrong QE identity, TCB Info naming ANOTHER FMSPC, expired documents / CRLs, leaf issued by the Processor CA (O-3) or an unknown CA, leaf without SGX extension; a part of them around the wall clock with Now = nil), every world under ALL FOUR option combinations: verdict lattice and URL sequences; (c) histories of length 2-4 through ONE shared *verify.Options over new and revisited worlds, GetCollateral / CheckRevocations / TrustedRoots {own, another world's, nil} / Getter flips, Now left alone / set / reset: before each call the shared value's current Now is read and rendered into the model's input line, the shared verdict is compared with the model and with a fresh-options run of the same world. 520 / 5000 worlds x 4, 200 / 2000 histories. Non-trivial = every case; distinct = distinct (fault, options, error text, line hash)",
+    "trusted_base": ["the oracle takes the leaf's FMSPC and issuer CN from the generator's specification of the leaf certificate and classifies requests by URL path (/tcb?, /qe/identity, /pckcrl, anything else = a CRL distribution point)",
+                     "the hidden fields of verify.Options (chain, collateral, extensions) are overwritten by every call that gets past collateral fetching and are never read by TdxQuote before that; the model has no hidden state and the histories check exactly this"],
+    "assumptions": ["'fresh options' carry the Now the caller itself put there (nil if the caller never set it)",
+                    "the single-call form of F9 (Options.Now nil before and set after a call) is reported for the first 25 calls of a run and counted by tag afterwards"],
+}
+
+MANIFEST_TEXT["C12"] = {
+    "text": "Lean theorems over the executable model of verify.tdxQuoteV4 for every world and fetcher: more_checks_never_accept_more (accepted with collateral and revocation checking => accepted with collateral checking => accepted with signature and chain checking), no_fetch_without_collateral, crl_fetch_only_with_revocation, tcb_url_names_leaf_fmspc, pck_crl_url_names_issuing_ca, verdict_independent_of_history (repaired behaviour: a defaulted Now is not persisted; unfixed witness = finding F9). Tied to verify.go by running the real verify.TdxQuote with a recording getter over a mixed population under all four option combinations and over histories through one shared options value (incl. one real-time history), each call predicted by the model (verdict, URL list, Options.Now afterwards) and judged by an independent oracle: lattice, forbidden or mis-addressed requests, shared-vs-fresh verdict difference, caller's Options.Now modified.",
+    "note": "Trusted: Lean kernel, extractor, harness, Go standard library facts. O-3: a leaf issued by the Processor CA is fetched for with ca=processor and then rejected by the fixed intermediate CN; the property only fixes the request. Unchanged tree: violated (F9) until the defaulted Now is no longer stored in the caller's options.",
+    "technique": "Lean 4 proof over an executable model with oracle facts + differential correspondence on generated attestation worlds and option histories",
+}
